@@ -40,7 +40,9 @@ RULE = ("generated: paired runs (without / with transforms) of the real code on 
         "independently; uniform settings written as scalars in the configuration; the scaler object validates another "
         "configuration with other linear constraints (three other rows, or the same rows scaled differently) first (30 %); "
         "every case also runs an evaluator step whose evaluation fails (no function values) without and with the "
-        "transforms and compares the constraint information of that result. Levels: EnsembleEvaluator.calculate, evaluator step, optimizer "
+        "transforms and compares the constraint information of that result; evaluator and optimizer steps carry a 'last' and a "
+        "'best' tracker without tolerance (BasicOptimizer its own 'best' tracker): the retained result must be the user-domain "
+        "object of the delivered results, for 'last' the last function result, equal with and without transforms. Levels: EnsembleEvaluator.calculate, evaluator step, optimizer "
         "step and BasicOptimizer (configuration dict, or EnOptConfig validated with the transforms) driven by a scripted optimizer "
         "plug-in. Every run issues a sequence of evaluator calls: function+gradient in one call or function then gradient-only "
         "(cached function) at the start vector, then further single function requests (1-D or 1-row 2-D), 2-D batches of 2-3 "
@@ -491,16 +493,33 @@ def _one_run(case, transforms):
             install(ctx.plugin_manager)
             ctx.add_observer(EventType.FINISHED_EVALUATION, observer)
             bo.run()
+            kept = {"best": bo.results}
         else:
             context = OptimizerContext(evaluator=evaluator, plugin_manager=install(PluginManager()))
             context.add_observer(EventType.FINISHED_EVALUATION, observer)
             plan = Plan(context)
             step = plan.add_step("evaluator" if level == "evalstep" else "optimizer")
+            # trackers without a constraint tolerance: "last" must retain the last delivered function result, "best" one
+            # of the delivered ones -- as the user-domain objects of the `results` tuples, never the transformed ones
+            t_last = plan.add_handler("tracker", what="last", constraint_tolerance=None, sources={step})
+            t_best = plan.add_handler("tracker", what="best", constraint_tolerance=None, sources={step})
             kw = {} if case["explicit"] is None else {"variables": list(case["explicit"])}
             plan.run_step(step, config=_config_dict(case), transforms=transforms, **kw)
+            kept = {"last": plan.get(t_last, "results"), "best": plan.get(t_best, "results")}
         config = seen["config"]
-    return {"cfg": _cfg_obs(config), "requests": requests, "user": [_result_obs(r) for r in user],
-            "opt": [_result_obs(r) for r in opt]}
+        tracked = {}
+        for name, obj in kept.items():
+            if obj is None:
+                tracked[name] = {"index": None}
+                continue
+            hits = [i for i, r in enumerate(user) if r is obj]
+            tracked[name] = {"index": hits[-1] if hits else -1, "is_transformed_object": any(r is obj for r in opt) and not hits,
+                             "result": _result_obs(obj)}
+    out = {"cfg": _cfg_obs(config), "requests": requests, "user": [_result_obs(r) for r in user],
+           "opt": [_result_obs(r) for r in opt]}
+    if level != "evaluator":
+        out["tracked"] = tracked
+    return out
 
 
 def run_impl(case):
@@ -707,6 +726,32 @@ def oracle(case, obs):
         got = [(r["type"], r["variables"]) for r in T["user"]]
         if len(got) != len(want) or any(g[0] != w[0] or not _same(g[1], [float(v) for v in w[1]], S) for g, w in zip(got, want)):
             return {"clause": "result_variables_are_user_points", "detail": {"expected": want, "reported": got}}
+    # what the trackers of a step-level run retained: the user-domain object of the delivered `results`, the same one
+    # (by position in the delivery order) with and without transforms for a "last" tracker without tolerance
+    for name, run in (("plain", P), ("scaled", T)):
+        tk = run.get("tracked")
+        if tk is None:
+            continue
+        f_idx = [i for i, r in enumerate(run["user"]) if r["type"] == "F" and r["f_objectives"] is not None]
+        for what, t in tk.items():
+            if t["index"] == -1:
+                return {"clause": "results_invariant",
+                        "detail": {"result": f"retained by the '{what}' tracker ({name} run)", "field": "identity",
+                                   "is_the_transformed_result_object": t.get("is_transformed_object"),
+                                   "retained": t["result"], "delivered_user_results": run["user"][-1:]}}
+            if what == "last" and t["index"] != (f_idx[-1] if f_idx else None):
+                return {"clause": "results_invariant", "detail": {"result": f"retained by the 'last' tracker ({name} run)",
+                                                                  "field": "index", "retained": t["index"], "expected": f_idx[-1:]}}
+            if what == "best" and case["level"] != "basic" and f_idx and t["index"] not in f_idx:
+                return {"clause": "results_invariant", "detail": {"result": f"retained by the 'best' tracker ({name} run)",
+                                                                  "field": "index", "retained": t["index"], "expected_one_of": f_idx}}
+    if P.get("tracked") and T.get("tracked") and "last" in P["tracked"] and P["tracked"]["last"]["index"] is not None \
+            and T["tracked"]["last"]["index"] is not None:
+        a, b = P["tracked"]["last"]["result"], T["tracked"]["last"]["result"]
+        for key in a:
+            if not _same(a[key], b.get(key), S):
+                return {"clause": "results_invariant", "detail": {"result": "retained by the 'last' tracker", "field": key,
+                                                                  "plain": a[key], "scaled": b.get(key)}}
     # a result without function values (failed evaluation): bound / linear differences and violations depend on the
     # variables only and must be reported alike with and without transforms
     f = obs.get("fail")
